@@ -297,6 +297,7 @@ def impl_value(mode, records):
     """the python value the model's output line denotes"""
     b = brine()
     out = []
+    prev = repr(())
     for rec in records:
         if rec["hang"]:
             out.append("HANG")
@@ -307,7 +308,9 @@ def impl_value(mode, records):
                 reply = (b.load(rec["reply"]),)
             except Exception as ex:  # noqa
                 reply = ("undecodable reply", valtext.err_name(ex))
-        tail = (rec["alive"], reply, rec["notes"], rec["services"])
+        now = repr(rec["services"])          # the table is written out only when the event changed it
+        tail = (rec["alive"], reply, rec["notes"], None if now == prev else rec["services"])
+        prev = now
         if mode == "tcp":
             out.append((rec["accepted"], rec["elapsed"], rec["tracked"]) + tail)
         else:
@@ -675,17 +678,16 @@ def correspondence(ctx):
         evs = [e for e in events if e[0] != "t"]
         if got == "not-modelled":
             c.count("skipped:not-modelled(NaN port / slice over frozenset)")
-            # the prefix of the stream up to the offending datagram is still compared, event by event, below
-            ok = True
-            for k in range(len(evs)):
-                cut = cut_events(events, k)
-                _r, w = run_case(mode, pruning, fd_limit, cut, False)
-                g = canon_model(run_driver([op_line(mode, pruning, fd_limit, cut)], exe="drv_registry")[0])
+            # the stream up to the offending datagram is still compared: every prefix in one driver call
+            cuts = [cut_events(events, k) for k in range(len(evs))]
+            gs = run_driver([op_line(mode, pruning, fd_limit, cut) for cut in cuts], exe="drv_registry")
+            for cut, gl in zip(cuts, gs):
+                g = canon_model(gl)
                 if g == "not-modelled":
                     break
+                _r, w = run_case(mode, pruning, fd_limit, cut, False)
                 c.evaluations += 1
                 if g != w:
-                    ok = False
                     c.disagreements.append(dict(case=dict(kind="history", mode=mode, pruning_ms=pruning, fd_limit=fd_limit,
                                                           events=enc_events(cut)), impl=w[-600:], model=g[-600:]))
                     break
